@@ -185,7 +185,13 @@ func (w *c13world) exec(l *c13live, op c13op) string {
 		}
 		return out
 	case 6:
-		t := TypeCorpus[op.I%len(TypeCorpus)]
+		t := TypeCorpus[(op.I*8+op.J)%len(TypeCorpus)]
+		if len(w.tsSpec) > 0 && op.J%2 == 0 {
+			// a type that mentions one of the overridden types: the shared entries are actually used
+			if rel := CorpusMentioning[w.tsSpec[op.I%len(w.tsSpec)]]; len(rel) > 0 {
+				t = TypeCorpus[rel[(op.I/2+op.J/2)%len(rel)]]
+			}
+		}
 		sch, err := jsonschema.ForType(t.T, l.opts)
 		if err != nil {
 			return "err"
